@@ -35,4 +35,28 @@ def setEdition (current : Nat) (v : Nat) : Nat × Bool :=
 /-- `Client(conn, config)` : construction fails (no client object) for an invalid edition -/
 def initEdition (v : Nat) : Option Nat := if validEditions.contains v then some v else none
 
+/-! ### the whole configuration dictionary (`set_configs` with several keys) -/
+
+/-- `client.config`: key ↦ value (values as integers; `standard_version` is one of the keys), latest binding first -/
+abbrev Config := List (String × Int)
+
+def Config.get (c : Config) (k : String) : Option Int := (c.find? (·.1 == k)).map (·.2)
+
+/-- `dict.update`: later pairs win -/
+def Config.update (c : Config) (d : List (String × Int)) : Config := d.reverse ++ c
+
+def Config.editionOk (c : Config) : Bool :=
+  match c.get "standard_version" with
+  | some v => decide (0 ≤ v) && validEditions.contains v.toNat
+  | none => false
+
+/-- `Client.set_configs(dic)`: `previous = dict(config)`; `config.update(dic)`; `refresh_config()` validates; a refusal restores `previous` and re-raises.
+    Returns the configuration in force afterwards and whether the call raised. -/
+def setConfigs (c : Config) (d : List (String × Int)) : Config × Bool :=
+  let c' := c.update d
+  if c'.editionOk then (c', false) else (c, true)
+
+/-- `Client.set_config(key, value)` -/
+def setConfig (c : Config) (k : String) (v : Int) : Config × Bool := setConfigs c [(k, v)]
+
 end Uds.Model
